@@ -426,14 +426,19 @@ func delAllArgsStable(args []argsKV, key string) []argsKV {
 	return args
 }
 
+// delAllArgs removes all the entries with the given key keeping the order
+// of the remaining ones. The removed entries are moved past the end of the
+// returned slice, so their buffers are reused later.
 func delAllArgs(args []argsKV, key string) []argsKV {
-	n := len(args)
-	for i := 0; i < n; i++ {
+	n := 0
+	for i := range args {
 		if key == string(args[i].key) {
-			args[i], args[n-1] = args[n-1], args[i]
-			n--
-			i--
+			continue
 		}
+		if i != n {
+			args[i], args[n] = args[n], args[i]
+		}
+		n++
 	}
 	return args[:n]
 }
